@@ -206,6 +206,57 @@ fn check_unencodable(pid: &str, space: &str, table: &std::sync::Mutex<std::colle
     }
 }
 
+/// A message assembled by a builder (create helper included) whose protected header is edited on
+/// the built value: a built value has no retained bytes, so every structure must carry the encoding
+/// of the *edited* header (single-field headers: their encoded map is unique).
+pub fn built_then_edited(ex: &Ex, fams: &'static str, l: &mut Local) {
+    let heads = crate::spaces::c11::single_field_headers();
+    let aad: &[u8] = b"a";
+    for (i, h1) in heads.iter().enumerate().take(6) {
+        let h2 = &heads[(i + 1) % 6];
+        let (c1, c2) = (subject::c_header(h1).unwrap(), subject::c_header(h2).unwrap());
+        let want = enc_header(h2).det();
+        let case = format!("built with protected header #{} then edited to #{}", i, (i + 1) % 6);
+        let cx = Cx { pid: ex.pid, space: "built-then-edited", case: &case, exact: true, fams, slots_only: true, body_override: Some(&want) };
+        l.state(1);
+        l.count("built_then_edited.cases");
+        if fams.contains('S') {
+            if let Ok(mut m) = catch(|| CoseSign1Builder::new().protected(c1.clone()).payload(b"p".to_vec()).create_signature(aad, |_| vec![1]).build()) {
+                m.protected.header = c2.clone();
+                crypto::sign1(&cx, &m, &[aad], &[], l);
+            }
+        }
+        if fams.contains('M') {
+            if let Ok(mut m) = catch(|| CoseMac0Builder::new().protected(c1.clone()).payload(b"p".to_vec()).create_tag(aad, |_| vec![1]).build()) {
+                m.protected.header = c2.clone();
+                crypto::mac0(&cx, &m, &[aad], l);
+            }
+            if let Ok(mut m) = catch(|| CoseMacBuilder::new().protected(c1.clone()).payload(b"p".to_vec()).try_create_tag(aad, |_| -> Result<Vec<u8>, String> { Ok(vec![1]) }).map(|b| b.build())) {
+                if let Ok(m) = &mut m {
+                    m.protected.header = c2.clone();
+                    crypto::mac(&cx, m, &[aad], l);
+                }
+            }
+        }
+        if fams.contains('E') {
+            if let Ok(mut m) = catch(|| CoseEncrypt0Builder::new().protected(c1.clone()).create_ciphertext(b"pt", aad, |_, _| vec![1]).build()) {
+                m.protected.header = c2.clone();
+                crypto::encrypt0(&cx, &m, &[aad], l);
+            }
+            if let Ok(mut m) = catch(|| CoseEncryptBuilder::new().protected(c1.clone()).try_create_ciphertext(b"pt", aad, |_, _| -> Result<Vec<u8>, String> { Ok(vec![1]) }).map(|b| b.build())) {
+                if let Ok(m) = &mut m {
+                    m.protected.header = c2.clone();
+                    crypto::encrypt(&cx, m, &[aad], l);
+                }
+            }
+            if let Ok(mut m) = catch(|| CoseRecipientBuilder::new().protected(c1.clone()).create_ciphertext(EncryptionContext::EncRecipient, b"pt", aad, |_, _| vec![1]).build()) {
+                m.protected.header = c2.clone();
+                crypto::recipient(&cx, &m, &[], &[], &[aad], l);
+            }
+        }
+    }
+}
+
 // ---------------------------------------------------------------------------------------------
 // C03
 
@@ -327,6 +378,7 @@ pub fn explore_c03(ex: &Ex) {
         v
     }, &mut l);
     edited_after_decode(ex, "S", &mut l);
+    built_then_edited(ex, "S", &mut l);
     ex.rep.merge(l);
 }
 
@@ -551,6 +603,7 @@ pub fn explore_c04(ex: &Ex) {
         v
     }, &mut l);
     edited_after_decode(ex, "M", &mut l);
+    built_then_edited(ex, "M", &mut l);
     ex.rep.merge(l);
 }
 
@@ -725,6 +778,7 @@ pub fn explore_c05(ex: &Ex) {
         v
     }, &mut l);
     edited_after_decode(ex, "E", &mut l);
+    built_then_edited(ex, "E", &mut l);
     ex.rep.merge(l);
 }
 
